@@ -387,7 +387,53 @@ def rule_resume_policy(ctx):
     c13.rule_srv_gates(_Relabel(ctx, "C13.SRV-GATES", "C03.RESUME-POLICY"))
 
 
+def rule_policy_rows(ctx):
+    """POLICY: meaning of the policy checks made while negotiating, over boundary values
+    (condeval.outcomes): extended master secret requirement, ALPN overlap, certificate type,
+    unsolicited record_size_limit."""
+    from .common import spec_rows
+    R = "C03.POLICY"
+    full = {"version": [(3, 3)], "result == None": [False]}
+
+    def d(*ds):
+        out = {}
+        for x in ds:
+            out.update(x)
+        return out
+    EMS = "clientHello.getExtension(ExtensionType.extended_master_secret)"
+    spec_rows(ctx, R, TLSCONN + "_handshakeServerAsyncHelper", [
+        dict(what="server: requireExtendedMasterSecret refuses a client without the extension",
+             dom=d(full, {"settings.useExtendedMasterSecret": [True], EMS: [None, True],
+                          "settings.requireExtendedMasterSecret": [True, False]}),
+             abort=lambda e: not e[EMS] and e["settings.requireExtendedMasterSecret"],
+             effects={"self.extendedMasterSecret = True": lambda e: bool(e[EMS])},
+             msg="with requireExtendedMasterSecret a handshake without the extension must fail; EMS is used "
+                 "exactly when the client offered it"),
+        dict(what="server: ALPN needs a protocol both sides list",
+             dom=d(full, {"alpnExt": [True], "alpn": [(b"h2",), (b"h2", b"http/1.1")],
+                          "alpnExt.protocol_names": [(b"h2",), (b"x",), (b"x", b"http/1.1")]}),
+             abort=lambda e: not set(e["alpn"]) & set(e["alpnExt.protocol_names"]),
+             msg="when both sides use ALPN and share no protocol the handshake must fail"),
+    ])
+    spec_rows(ctx, R, TLSCONN + "_serverGetClientHello", [
+        dict(what="server: certificate suites need a client that accepts X.509",
+             dom={"cipherSuite": [47, 0xC02B, 0x1301], "CipherSuite.certAllSuites": [(47,)],
+                  "CipherSuite.ecdheEcdsaSuites": [(0xC02B,)], "CertificateType.x509": [0],
+                  "clientHello.certificate_types": [(0,), (1,), (1, 0)], "version": [(3, 3)]},
+             abort=lambda e: e["cipherSuite"] in (47, 0xC02B) and 0 not in e["clientHello.certificate_types"],
+             msg="a certificate-authenticated suite must not be used with a client that does not accept X.509"),
+    ])
+    spec_rows(ctx, R, TLSCONN + "_clientTLS13Handshake", [
+        dict(what="client: record_size_limit from the server only if we offered it",
+             dom={"size_limit_ext": [True, None], "settings.record_size_limit": [None, 2 ** 14 + 1],
+                  "size_limit_ext.record_size_limit": [2 ** 14 + 1]},
+             abort=lambda e: bool(e["size_limit_ext"]) and not e["settings.record_size_limit"],
+             msg="a record_size_limit extension the client did not offer must be refused"),
+    ])
+
+
 RULES = [
+    ("C03.POLICY", "quick", rule_policy_rows),
     ("C03.SH-GATES", "quick", rule_sh_gates),
     ("C03.RESUME-POLICY", "quick", rule_resume_policy),
     ("C03.SRV-PICK", "quick", rule_srv_pick),
